@@ -152,6 +152,7 @@ def check_C20(ctx):
 
 import re as _re
 import re
+import glob
 
 
 def parse_flags(s):
@@ -1044,6 +1045,45 @@ def check_C07(ctx):
     elif fres.get("log"):
         problems.append("fresh generated packages unavailable: " + fres["log"][:300])
     ctx.cover["fresh_generated_packages"] = len(fresh_pkgs)
+    # what the generator CAN make generated code import, whatever the schema (also for schemas no test set contains, e.g. proto2
+    # files): every package named by a protogen.GoImportPath("...") literal in the generator's source must itself be free of
+    # fmt/reflect. (Packages named by the user in custom_type / custom_serialize options are the user's own.)
+    gen_imports = set()
+    for f in glob.glob(os.path.join(C.REPO, "protoc-gen-pico", "*.go")):
+        if f.endswith("_test.go") or f.endswith(".pb.go"):
+            continue
+        gen_imports |= set(re.findall(r'GoImportPath\(\s*"([^"]+)"\s*\)', open(f).read()))
+    ctx.cover["packages_the_generator_can_import"] = sorted(gen_imports)
+    if gen_imports:
+        rc, so, se = C.run(["go", "list", "-deps", "-json=ImportPath,Imports,Standard"] + sorted(gen_imports), cwd=C.REPO, env=C.GOENV, check=False, timeout=600)
+        if rc != 0:
+            problems.append("go list (packages named in the generator) failed: %s" % se[-300:])
+        else:
+            dec, i, pk = json.JSONDecoder(), 0, []
+            while i < len(so):
+                while i < len(so) and so[i].isspace():
+                    i += 1
+                if i >= len(so):
+                    break
+                obj, i = dec.raw_decode(so, i)
+                pk.append(obj)
+            by = {p["ImportPath"]: p for p in pk}
+            for root in sorted(gen_imports):
+                total += 1
+                parent, todo = {root: None}, [root]
+                while todo:
+                    n = todo.pop(0)
+                    for imp in by.get(n, {}).get("Imports", []):
+                        if imp not in parent:
+                            parent[imp] = n
+                            todo.append(imp)
+                for n in parent:
+                    if n in T.FORBIDDEN:
+                        path = [n]
+                        while parent[path[-1]] is not None:
+                            path.append(parent[path[-1]])
+                        findings.append({"config": "generator-source", "root": root, "forbidden": n, "import_path": list(reversed(path)),
+                                         "what": "protoc-gen-pico can emit an import of %s (GoImportPath literal in its source), which depends on %s" % (root, n)})
     # link-time evidence
     nm_hits = []
     link = os.path.join(C.WORK, "link")
